@@ -275,6 +275,27 @@ func (act *activation) store(a *alt, addr, v term.ID, ins ssa.Instruction) {
 	}
 }
 
+// flags lists the boolean loop-carried variables of the function whose value
+// is a known constant in this alternative, as flag:<name>(value).
+func (act *activation) flags(a *alt) []term.ID {
+	var out []term.ID
+	for _, b := range act.fn.Blocks {
+		for _, ins := range b.Instrs {
+			phi, ok := ins.(*ssa.Phi)
+			if !ok {
+				break
+			}
+			if !isBool(phi.Type()) || phi.Comment == "" {
+				continue
+			}
+			if v, ok := a.frame[phi]; ok && (v == act.e.trueT || v == act.e.falseT) {
+				out = append(out, act.e.T.Mk("flag:"+phi.Comment, v))
+			}
+		}
+	}
+	return out
+}
+
 // escapeInto marks cells whose address is contained in v as escaped.
 func (act *activation) escapeInto(a *alt, v term.ID) {
 	act.forAddrs(v, func(c int32) {
@@ -323,7 +344,7 @@ func (act *activation) execBlock(b *ssa.BasicBlock, a *alt, edgeOut map[edge][]*
 				act.addRet(x, res)
 				if act.record && act.depth == 0 {
 					// per-return-site view of the entry function (return classes are merged by outcome)
-					act.events = append(act.events, &Event{Key: "return", Kind: "return", Instr: ins, Fn: act.fn, Args: res, Atoms: x.atoms})
+					act.events = append(act.events, &Event{Key: "return", Kind: "return", Instr: ins, Fn: act.fn, Args: res, Atoms: x.atoms, Result: act.flags(x)})
 				}
 			}
 			return
